@@ -10,7 +10,8 @@ import Heathcliff.Proofs.C19K
   Helper lemmas: Proofs/C19.lean.
 -/
 import Heathcliff.Proofs.C19
-import Heathcliff.Proofs.GenAppLwe2
+import Heathcliff.Proofs.GenAppLwe3
+import Heathcliff.Proofs.GenShift
 namespace HC.C19
 open HC Finset
 
@@ -276,7 +277,47 @@ theorem gen_lwe_pack_merge_plan_eq : type_of% @HC.ga_lwe_pack_merge_plan_eq := @
 /-- ... and the model's `packLayer` performs exactly that butterfly at the even slot of every plan entry -/
 theorem gen_lwe_pack_merge_model : type_of% @HC.ga_packLayer_plan := @HC.ga_packLayer_plan
 
+/-! #### second round: the WHOLE plan of `pack_lwe_ciphertexts` as one generated function -/
+
+/-- the generated whole-plan function (`let mut l = 0;` … `self.field_trace_inplace(&mut ret, keys, l)`, 12 statements, skeleton reading):
+    `[l] ++ leaves ++ butterflies of the layers 0 … l−1 ++ [l]` with `l = packLog count`, for every count ≤ 2^62 -/
+theorem gen_lwe_pack_plan_eq : type_of% @HC.ga_lwe_pack_plan_eq := @HC.ga_lwe_pack_plan_eq
+
+/-- interpreting that plan over the phase polynomials (`ga_runPack`: leaf slots, butterflies in order on the slots, field trace of slot 0
+    — the reading of the opaque evaluator steps) IS the model's program `packPoly`: the in-place butterfly loop = the index-wise `packLayer` -/
+theorem gen_lwe_pack_plan_is_packPoly : type_of% @HC.ga_runPack_eq := @HC.ga_runPack_eq
+
+/-- **`pack_spec` as a statement about the GENERATED code**, every count `1 … N`, `N = 2^k ≤ 2^62`, both values of `ntt_form`: the generated
+    function returns a plan, and running it leaves the constant coefficient of input `r` at position `r·N/2^⌈log2 count⌉` and zeros everywhere
+    else -/
+theorem gen_pack_spec {R : Type} [CommRing R] (k : Nat) (hk : k ≤ 62) (ninv : R) (hinv : ninv * (2:R)^k = 1) (ins : Array (Array R))
+    (hc : ins.size ≤ 2^k) (ntt : Bool) (j : Nat) (hj : j < 2^k) :
+    ∃ plan, GenApp.lwe_pack_plan ins.size (2^k) ntt = .ok plan ∧
+      (ga_runPack k ninv ins plan).getD j 0 =
+        if (2^k / 2^(packLog ins.size)) ∣ j ∧ j / (2^k / 2^(packLog ins.size)) < ins.size
+        then (ins.getD (j / (2^k / 2^(packLog ins.size))) #[]).getD 0 0 else 0 := by
+  have h62 : ins.size ≤ 2^62 := Nat.le_trans hc (Nat.pow_le_pow_right (by omega) hk)
+  refine ⟨_, HC.ga_lwe_pack_plan_eq ins.size (2^k) ntt h62, ?_⟩
+  rw [HC.ga_runPack_eq]
+  exact pack_spec k ninv hinv ins hc j hj
+
+/-- `polymod::negacyclic_shift` (src/util/polysmallmod.rs, regenerated into `Gen/PolyFns.lean` since phase 4b, there "generated only") = the
+    model's `negacyclicShift`, on the zero-initialised buffer `extract_lwe` passes: the data rule of the extracted `c1` -/
+theorem gen_negacyclic_shift_eq : type_of% @HC.gs_negacyclic_shift_eq := @HC.gs_negacyclic_shift_eq
+
+/-- **`extract_lwe`'s `c1`, one RNS component, from source**: the generated shift computation followed by the generated `negacyclic_shift` returns the
+    model's `negacyclicShift a (2N − term) q` (to which `shift_coeff_rule` / `shift_is_monomial_mul` / `extract_identity` apply), `0 < term < N` -/
+theorem gen_extract_c1_eq (a : List Nat) (k term : Nat) (m : Modulus) (hlen : a.length = 2^k) (ht0 : term ≠ 0) (ht : term < 2^k)
+    (hq : ∀ i, i < 2^k → a.getD i 0 ≤ m.value) (hk : 2^k * 3 < 2^64) :
+    ∃ s, GenApp.lwe_extract_shift term (2^k) = .ok s ∧
+      GenP.poly_negacyclic_shift a s m (List.replicate (2^k) 0) = .ok (negacyclicShift a.toArray (2^k * 2 - term) m).toList := by
+  refine ⟨2^k * 2 - term, ?_, HC.gs_negacyclic_shift_eq a k _ m hlen (by omega) hq (by omega)⟩
+  rw [HC.ga_lwe_extract_shift_eq term (2^k) (by omega), if_neg ht0, HC.ga_ckSub (by omega)]
+
 /-! non-vacuity of the ties: the generated fragments run -/
+example : GenP.poly_negacyclic_shift [1, 2, 3, 4] 5 ⟨7, 0, 0, 0, 3⟩ [0, 0, 0, 0] = .ok [4, 6, 5, 4] := by rfl
+example : GenApp.lwe_pack_plan 3 8 false = .ok [2, 0, 2, 1, 3, 1, 4, 0, 3, 3, 4, 2, 3, 2, 2, 0, 5, 2] := by rfl
+example := gen_pack_spec (R := ZMod 17) 1 (by decide) 9 (by decide) #[#[3, 4], #[5, 6]] (by decide) false 1 (by decide)
 example : GenApp.lwe_pack_leaves 2 3 = .ok [0, 2, 1, 3] := by rfl
 example : GenApp.lwe_pack_merge_plan 2 8 false = .ok [1, 4, 0, 3, 3, 4, 2, 3, 2, 2, 0, 5] := by rfl
 example : GenApp.lwe_pack_log 5 = .ok 3 := by rfl
